@@ -433,3 +433,182 @@ Definition unguarded_loop_exits (l : list (string * string * string * string * b
   filter (fun e => negb (snd e)) l.
 Definition search_mismatch (l : list (string * string * bool * bool * bool)) : list (string * string) :=
   flat_map (fun e => let '(c, p, g, s, same) := e in if g && s && negb same then [(c, p)] else []) l.
+
+(* ------------------------------------------------------------------ callbacks
+   For every property whose setter stores into a function-pointer FIELD f (C member m = c_name_of f):
+   (1) every CFUNCTYPE alias the setter wraps its argument with / casts to has the signature of the C member's prototype
+       (return type, argument count, argument types; struct arguments by the class map);
+   (2) every exported C function the setter references is either of exactly the member's function type (a built-in callback
+       stored by name) or takes a parameter of the member's type (the C-side setter function). *)
+Fixpoint ctype_eqb (a b : ctype) {struct a} : bool :=
+  match a, b with
+  | CVoid, CVoid => true
+  | CPrim n, CPrim m => String.eqb n m
+  | CEnum n, CEnum m => String.eqb n m
+  | CPtr x, CPtr y => ctype_eqb x y
+  | CFun r1 a1 v1, CFun r2 a2 v2 =>
+      ctype_eqb r1 r2 && Bool.eqb v1 v2 &&
+      (fix go (l1 l2 : list ctype) {struct l1} : bool :=
+         match l1, l2 with
+         | [], [] => true
+         | x :: l1', y :: l2' => ctype_eqb x y && go l1' l2'
+         | _, _ => false
+         end) a1 a2
+  | CArr n x, CArr m y => (n =? m) && ctype_eqb x y
+  | CStruct n, CStruct m => String.eqb n m
+  | CVec n x, CVec m y => (n =? m) && ctype_eqb x y
+  | _, _ => false
+  end.
+
+Definition c_member_type (T : tables) (ss : list cstruct) (cls pyfield : string) : option ctype :=
+  match assoc cls (t_class_map T) with
+  | Some sn => match find_struct sn ss with
+               | Some s => match find (fun m => String.eqb (cm_name m) (c_name_of T cls pyfield)) (cs_members s) with
+                           | Some m => Some (cm_type m) | None => None end
+               | None => None end
+  | None => None
+  end.
+
+Definition py_field_type (cs : list pyclass) (cls f : string) : option pytype :=
+  match find (fun c => String.eqb (pc_name c) cls) cs with
+  | Some c => assoc f (pc_fields c) | None => None end.
+
+Definition setter_cb (l : list (string * string * list string * list string)) (cls prop : string) : list string * list string :=
+  match find (fun e => let '(c, p, _, _) := e in String.eqb c cls && String.eqb p prop) l with
+  | Some (_, _, w, s) => (w, s) | None => ([], []) end.
+
+Definition callback_mismatch (T : tables) (ss : list cstruct) (cs : list pyclass) (ps : list pyprops)
+           (functypes : list (string * string * pytype)) (scb : list (string * string * list string * list string))
+           (cfuns : list (string * ctype)) : list (string * string * string * string) :=
+  flat_map (fun p =>
+    let cls := pp_class p in
+    flat_map (fun pr =>
+      let prop := fst (fst pr) in
+      let '(wr, sy) := setter_cb scb cls prop in
+      flat_map (fun f =>
+        match py_field_type cs cls f with
+        | Some (PFun _ _) =>
+            match c_member_type T ss cls f with
+            | Some ct =>
+                flat_map (fun a => match find (fun e => String.eqb (fst (fst e)) a) functypes with
+                                   | Some e => if compat (t_class_map T) ct (snd e) then [] else [(cls, prop, a, "alias-signature")]
+                                   | None => [(cls, prop, a, "alias-unknown")] end) wr ++
+                flat_map (fun s => match assoc s cfuns with
+                                   | Some (CFun r args v) =>
+                                       if ctype_eqb (CPtr (CFun r args v)) ct || existsb (ctype_eqb ct) args then []
+                                       else [(cls, prop, s, "symbol-prototype")]
+                                   | _ => [(cls, prop, s, "symbol-not-exported-function")] end) sy
+            | None => [(cls, prop, f, "no-c-member")]
+            end
+        | _ => []
+        end) (snd pr)) (pp_props p)) ps.
+
+(* the python-settable callbacks: (class, property, field) for the searcher *)
+Definition callback_props (cs : list pyclass) (ps : list pyprops) : list (string * string * string) :=
+  flat_map (fun p => flat_map (fun pr => flat_map (fun f =>
+     match py_field_type cs (pp_class p) f with Some (PFun _ _) => [(pp_class p, fst (fst pr), f)] | _ => [] end) (snd pr))
+     (pp_props p)) ps.
+
+(* ------------------------------------------------------------------ documented options (docs/*.md, Gen/DocOptions.v)
+   model of the normalisation the setters apply to a name before the dictionary lookup:
+   0 none (TRACE peri_mode) | 1 lower() | 2 lower()+remove " " | 3 lower()+remove " ", "(", ")"   *)
+Definition lower_ascii (c : ascii) : ascii :=
+  let n := N_of_ascii c in if (N.leb 65 n && N.leb n 90)%bool then ascii_of_N (n + 32) else c.
+Fixpoint lower (s : string) : string :=
+  match s with EmptyString => EmptyString | String c r => String (lower_ascii c) (lower r) end.
+Fixpoint strip_chars (cs : list ascii) (s : string) : string :=
+  match s with
+  | EmptyString => EmptyString
+  | String c r => if existsb (Ascii.eqb c) cs then strip_chars cs r else String c (strip_chars cs r)
+  end.
+Definition normalise (mode : Z) (s : string) : string :=
+  if mode =? 0 then s else if mode =? 1 then lower s
+  else if mode =? 2 then strip_chars [" "%char] (lower s)
+  else strip_chars [" "%char; "("%char; ")"%char] (lower s).
+Fixpoint drop (n : nat) (s : string) : string :=
+  match n, s with O, _ => s | S n', String _ r => drop n' r | _, EmptyString => EmptyString end.
+
+(* path in the docs -> (python class, property, option dictionary or "" for a named-callback property, normalisation) *)
+Definition docrule := (string * string * string * string * Z)%type.
+Definition doc_rule_of (rules : list docrule) (path : string) : option docrule :=
+  find (fun r => let '(p, _, _, _, _) := r in String.eqb p path) rules.
+
+Definition dict_items (ds : list pydict) (d : string) : list (string * Z) :=
+  match find (fun x => String.eqb (pd_name x) d) ds with Some x => pd_items x | None => [] end.
+
+(* value a documented python string selects: Some v, following the setter (incl. the "sabaXYZ" shortcut of `integrator`) *)
+Definition doc_value (ds : list pydict) (dict : string) (mode : Z) (s : string) : option Z :=
+  let k := normalise mode s in
+  match assoc k (dict_items ds dict) with
+  | Some v => Some v
+  | None =>
+      if String.eqb dict "INTEGRATORS" && has_prefix "saba" k && Nat.ltb 4 (String.length k) then
+        match assoc (normalise 3 (drop 4 k)) (dict_items ds "SABA_TYPES") with
+        | Some _ => assoc "saba" (dict_items ds "INTEGRATORS") | None => None end
+      else None
+  end.
+
+Definition ddev := (string * string * string * string)%type.     (* file, path, item, code *)
+Definition ddev_eqb (a b : ddev) : bool :=
+  let '(a1, a2, a3, a4) := a in let '(b1, b2, b3, b4) := b in
+  String.eqb a1 b1 && String.eqb a2 b2 && String.eqb a3 b3 && String.eqb a4 b4.
+
+Definition doc_deviations (T : tables) (rules : list docrule) (es : list cenum) (cds : list cdecl) (ds : list pydict)
+           (named : list (string * string * string * list string))
+           (dpy dc dcb : list (string * string * string)) (dpairs : list (string * string * string * string))
+           (toks : list (string * string)) : list ddev :=
+  let consts := all_consts es in
+  let named_syms (cls prop nm : string) : option (list string) :=
+    match find (fun e => let '(c, p, n, _) := e in String.eqb c cls && String.eqb p prop && String.eqb n nm) named with
+    | Some (_, _, _, sy) => Some sy | None => None end in
+  flat_map (fun e => let '(f, path, s) := e in
+    match doc_rule_of rules path with
+    | None => [(f, path, s, "unknown-option-path")]
+    | Some (_, cls, prop, dict, mode) =>
+        if String.eqb dict "" then
+          match named_syms cls prop s with Some _ => [] | None => [(f, path, s, "no-such-named-callback")] end
+        else match doc_value ds dict mode s with Some _ => [] | None => [(f, path, s, "not-in-python-dictionary")] end
+    end) dpy ++
+  flat_map (fun e => let '(f, path, c) := e in
+    match doc_rule_of rules path with
+    | None => [(f, path, c, "unknown-option-path")]
+    | Some (_, _, _, dict, _) =>
+        match rule_of T dict, assoc c consts with
+        | Some rule, Some _ => if has_prefix (fst rule) c then [] else [(f, path, c, "constant-of-another-enum")]
+        | _, _ => [(f, path, c, "no-such-c-constant")]
+        end
+    end) dc ++
+  flat_map (fun e => let '(f, path, sym) := e in
+    match doc_rule_of rules path with
+    | None => [(f, path, sym, "unknown-option-path")]
+    | Some (_, _, _, dict, _) =>
+        if String.eqb dict "" then (if decl_ok T cds sym then [] else [(f, path, sym, "no-such-exported-function")])
+        else [(f, path, sym, "not-a-c-constant")]
+    end) dcb ++
+  flat_map (fun e => let '(f, path, c, s) := e in
+    match doc_rule_of rules path with
+    | None => []
+    | Some (_, cls, prop, dict, mode) =>
+        if String.eqb dict "" then
+          match named_syms cls prop s with
+          | Some sy => if str_in c sy then [] else [(f, path, s, "pair-names-different-function")]
+          | None => [] end
+        else match doc_value ds dict mode s, assoc c consts with
+             | Some v, Some w => if v =? w then [] else [(f, path, s, "pair-values-differ")]
+             | _, _ => [] end              (* missing sides are reported above *)
+    end) dpairs ++
+  flat_map (fun e => let '(f, t) := e in
+    if existsb (fun r => has_prefix (snd (fst r)) t) (t_dict_rules T) && negb (match assoc t consts with Some _ => true | None => false end)
+    then [(f, "", t, "no-such-c-constant")] else []) toks.
+
+Definition ddevs_within (ds known : list ddev) : bool := forallb (fun d => existsb (ddev_eqb d) known) ds.
+
+(* built-in callbacks selected by name: the function stored for "name" is PREFIX ++ name (e.g. "merge" ->
+   reb_collision_resolve_merge), so that the name means what it says *)
+Definition named_callback_mismatch (prefixes : list (string * string * string))
+           (named : list (string * string * string * list string)) : list (string * string * string) :=
+  flat_map (fun e => let '(cls, prop, nm, syms) := e in
+    match find (fun r => let '(c, p, _) := r in String.eqb c cls && String.eqb p prop) prefixes with
+    | Some (_, _, pre) => if str_in (String.append pre nm) syms then [] else [(cls, prop, nm)]
+    | None => [(cls, prop, nm)]
+    end) named.
